@@ -22,6 +22,11 @@ Known == {"Reset", "TPutBegin", "TPutEnd", "TPutAck", "TTake", "TCopied", "CopyF
 TraceInit == Init /\ l = 1 /\ TLCSet(1, 1) /\ TLCSet(2, <<>>)
 
 TSkip == l <= Len(Trace) /\ Trace[l].ev \notin Known /\ l' = l + 1 /\ UNCHANGED vars
+\* Relax: event kinds whose guards (pure guards: the action leaves the state alone) are not judged in this run.  Used when a
+\* trace has already been rejected at such an event for another property's clause, so that the clauses of the property
+\* under examination further down the trace are still evaluated (lib/corelib.py).
+CONSTANT Relax
+TRelax == l <= Len(Trace) /\ Trace[l].ev \in Relax /\ l' = l + 1 /\ UNCHANGED vars
 
 TReset == /\ IsEvent("Reset")
           /\ minfo' = <<>> /\ tq' = {} /\ owed' = <<>> /\ copying' = <<>> /\ chan' = <<>> /\ top' = <<>>
@@ -29,8 +34,9 @@ TReset == /\ IsEvent("Reset")
 
 TNext ==
   \/ TSkip
+  \/ TRelax
   \/ TReset
-  \/ IsEvent("TPutBegin") /\ APutBegin(E.t, E.id, [key |-> E.key, crc |-> E.crc, len |-> E.len, ts |-> E.ts, def |-> E.def, acked |-> FALSE])
+  \/ IsEvent("TPutBegin") /\ APutBegin(E.t, E.id, [key |-> E.key, crc |-> E.crc, len |-> E.len, ts |-> E.ts, pnow |-> E.pnow, def |-> E.def, acked |-> FALSE])
   \/ IsEvent("TPutEnd") /\ APutEnd(E.t, E.id, E.ok)
   \/ IsEvent("TPutAck") /\ APutAck(E.t, ToSet(E.ids))
   \/ IsEvent("TTake") /\ ATake(E.t, E.id, ToSet(E.chans), E.def)
